@@ -23,6 +23,13 @@ CONFIGS = {
                                'py/bytes', 'py/int', 'py/long', 'py/float', 'py/complex', 'py/name:'],
                   Names=['trap', 'res'], Vals=['g', 'e'], MaxEntries=1, MustChain='TRUE', Kinds=['s', 'm'], LeafKinds=['s', 'm'],
                   KeyFillers=['k', 'V'], ValFillers=['x', 'E']),
+    # existing objects of every kind (function, class, lazy attribute, builtin, iterator, generic object, Mapping instance,
+    # unhashable object) named by python/name on a scalar or on a mapping with a '=' key, in every position of a 2-node
+    # document: element, key, value, set member, omap entry, merge source, '=' default
+    'objpos': dict(MaxNodes=2, LeafBases=['py/name:'],
+                   ParentBases=['seq', 'map', 'set', 'omap', 'pairs', 'str', 'py/dict', 'py/tuple', 'py/list'],
+                   Names=K.OBJNAMES, Vals=['e'], MaxEntries=1, MustChain='TRUE', Kinds=['s', 'q', 'm'], LeafKinds=['s', 'm'],
+                   KeyFillers=['k', 'M', 'V'], ValFillers=['x', 'E']),
     # thorough only
     'pairw': dict(MaxNodes=2, LeafBases=ALL, ParentBases=ALL, Names=K.ALLNAMES, Vals=['g', 'b', 'e'], MaxEntries=1, MustChain='TRUE'),
     'triplew': dict(MaxNodes=3, LeafBases=['str', 'int', 'local', 'py/name:', 'py/object/apply:', 'merge', 'value'],
@@ -32,7 +39,11 @@ CONFIGS = {
                   ParentBases=['seq', 'map', 'set', 'omap', 'pairs', 'str', 'null', 'local', 'py/dict'], Names=['res', 'lazy'],
                   Vals=['g', 'e'], MaxEntries=2, MustChain='FALSE'),
 }
-TIERS = {'quick': ['solo', 'pair', 'pair2', 'triple', 'merge3', 'eqobj'], 'thorough': ['solo', 'pairw', 'free2', 'triplew', 'eqobj']}
+# (the large configurations first: all TLC runs start side by side, each dump is replayed when its run completes)
+TIERS = {'quick': ['pair', 'triple', 'pair2', 'merge3', 'eqobj', 'objpos', 'solo'],
+         'thorough': ['pairw', 'triplew', 'free2', 'eqobj', 'objpos', 'solo']}
+# customisation histories of the application before it loads (spec/ConstructPrelude.tla)
+PRELUDES = {'quick': ['hist2', 'hist3q'], 'thorough': ['hist2', 'hist3', 'hist4q']}
 
 
 def replay_file(path, pid):
@@ -47,11 +58,22 @@ def replay_file(path, pid):
     bad = 0
     for x in d['violations']:
         det = x['detail']
-        for e in ('UnsafeLoader', 'CUnsafeLoader'):
-            ins.observe(e, det['doc'])
-        o = ins.observe(det['entry'], det['doc'])
+        if 'history' in det:
+            # a customisation history (ConstructPrelude.tla): performed in a forked child, then the reported load
+            entries = [('Unsafe', 'UnsafeLoader'), ('Unsafe', 'CUnsafeLoader'), ('x', det['entry'])]
+            out = K.in_child(lambda: K.replay_history(yaml, ins, det['history'], None, None, entries))
+            if out is None:
+                raise SystemExit('machinery failure: replay of history %s failed' % det['history_text'])
+            obs = [k for k, doc, entry, when in out['pairs'] if doc == det['doc'] and when == det['when']]
+            o = dict(zip(('st', 'ex', 'ty', 'eff'), obs[0][3:7])) if obs else {'st': '?', 'ex': '', 'ty': [], 'eff': []}
+            what = 'after [%s] %s' % (det['history_text'], det['doc'].strip())
+        else:
+            for e in ('UnsafeLoader', 'CUnsafeLoader'):
+                ins.observe(e, det['doc'])
+            o = ins.observe(det['entry'], det['doc'])
+            what = det['doc'].strip()[:120]
         same = (o['st'], o['ex'], list(o['ty']), list(o['eff'])) == (det['observed']['st'], det['observed']['ex'], list(det['observed']['ty']), list(det['observed']['eff']))
-        print('%s %s via %s: reported %s, now %s%s' % (pid, det['doc'].strip()[:120], det['entry'], det['observed'],
+        print('%s %s via %s: reported %s, now %s%s' % (pid, what, det['entry'], det['observed'],
               {k: o[k] for k in ('st', 'ex', 'ty', 'eff')}, ' (reproduced)' if same else ''))
         bad += same
     if bad:
@@ -63,7 +85,7 @@ def main(tier, replay=None, pid='C01', classes=('Safe', 'Base')):
     if replay:
         return replay_file(replay, pid)
     v = Verdict(pid, tier)
-    K.run(v, pid, list(classes), [(n, CONFIGS[n]) for n in TIERS[tier]], None)
+    K.run(v, pid, list(classes), [(n, CONFIGS[n]) for n in TIERS[tier]], [(n, K.PRELUDE_CONFIGS[n]) for n in PRELUDES[tier]])
     v.assumptions = ['documents are printed in flow style with verbatim tags; names are concretised to harness canary modules',
                      'effects are observed through sys.addaudithook, sys.modules, canary call logs and the types of the result',
                      'yaml.org types without a constructor (merge, value, yaml) may be accepted or rejected (the statement is silent)']
